@@ -114,6 +114,9 @@ func hcGenC03(rng *sim.Rand, tier string) interface{} {
 	sc.ServerForm = rng.PickStr("", "", "", "ip4", "host", "ip6", "ip6noport", "hostnoport")
 	sc.KeepHost = rng.Bool(0.4)
 	sc.MemCache = rng.Bool(0.2)
+	if !sc.MemCache && rng.Bool(0.25) {
+		sc.Retry = rng.Pick(2, 3)
+	}
 	if rng.Bool(0.4) {
 		sc.Compress = rng.Pick(0, 1, 100, 1000, 100000)
 	}
@@ -145,9 +148,13 @@ func hcGenC03(rng *sim.Rand, tier string) interface{} {
 					ex.BodyLen = 0
 				}
 			}
-			if sc.ProxyMax == -1 && rng.Bool(0.1) && ex.RBodyLen > 100 {
+			if rng.Bool(0.1) && ex.RBodyLen > 100 && sc.Retry <= 1 {
+				// backend dies in the middle of the body (buffered and stream mode)
 				ex.RReset = true
 				ex.RChunked = false
+			}
+			if sc.Retry > 1 && sc.SrvMax != -1 && rng.Bool(0.5) {
+				ex.FailFirst = rng.Range(1, sc.Retry-1)
 			}
 			cl.Ex = append(cl.Ex, ex)
 		}
@@ -290,8 +297,8 @@ func hcShort(b []byte) string {
 
 func (c *hcChain) describe(ex *hcExchange) string {
 	sc := c.sc
-	return fmt.Sprintf("[cfg server=%s memCache=%v byHost=%v keepHost=%v compress=%d respAdaptor=%q reqAdaptor=%q srvMax=%d pathMax=%d poolMax=%d proxyMax=%d] [req %s %s?%s body=%d chunked=%v ae=%q conn=%v hdr=%v] [backend status=%d body=%d chunked=%v gzip=%v short=%d reset=%v hdr=%v]",
-		c.backAddr, sc.MemCache, sc.ByHost, sc.KeepHost, sc.Compress, sc.RespAdaptor, sc.ReqAdaptor, sc.SrvMax, sc.PathMax, sc.PoolMax, sc.ProxyMax,
+	return fmt.Sprintf("[cfg retry=%d failFirst=%d server=%s memCache=%v byHost=%v keepHost=%v compress=%d respAdaptor=%q reqAdaptor=%q srvMax=%d pathMax=%d poolMax=%d proxyMax=%d] [req %s %s?%s body=%d chunked=%v ae=%q conn=%v hdr=%v] [backend status=%d body=%d chunked=%v gzip=%v short=%d reset=%v hdr=%v]",
+		sc.Retry, ex.FailFirst, c.backAddr, sc.MemCache, sc.ByHost, sc.KeepHost, sc.Compress, sc.RespAdaptor, sc.ReqAdaptor, sc.SrvMax, sc.PathMax, sc.PoolMax, sc.ProxyMax,
 		ex.Method, ex.Path, ex.Query, ex.BodyLen, ex.Chunked, ex.AcceptEnc, ex.ConnTokens, ex.Hdr,
 		ex.Status, ex.RBodyLen, ex.RChunked, ex.RGzip, ex.RShort, ex.RReset, ex.RHdr)
 }
@@ -322,6 +329,13 @@ func (c *hcChain) checkC03(id string, ex *hcExchange, res *hcResp) {
 	// ---- framing of what the client was sent
 	if res.frameErr != "" || res.garbage {
 		r.Violate("C03.frame.malformed/"+c.facts(ex), "%s: response is not well-formed HTTP/1.1: %s (status %d)\n%s", id, res.frameErr, res.status, desc)
+		return
+	}
+	if faulty && c.sc.ProxyMax != -1 && c.sc.PoolMax != -1 && (res.ioErr != nil || !res.complete) && res.status != 0 {
+		// buffered mode: the proxy holds the whole backend body before it answers,
+		// so whatever it answers must be well-framed
+		r.Violate("C03.frame.short-body-after-backend-fault/"+c.facts(ex), "%s: backend died mid-body (buffered mode) and the client was sent status %d with declared Content-Length=%q but %d body bytes (err %v)\n%s",
+			id, res.status, res.hdr.Get("Content-Length"), len(res.body), res.ioErr, desc)
 		return
 	}
 	if faulty {
@@ -392,7 +406,27 @@ func (c *hcChain) checkC03(id string, ex *hcExchange, res *hcResp) {
 		r.Violate("C03.req.not-forwarded/"+c.facts(ex), "%s: backend never saw the request; client got %d\n%s", id, res.status, desc)
 		return
 	}
-	if seen.count > 1 {
+	if c.sc.Retry > 1 {
+		if seen.count > c.sc.Retry {
+			r.Violate("C03.req.duplicated", "%s: backend saw the request %d times with maxAttempts %d\n%s", id, seen.count, c.sc.Retry, desc)
+		}
+		if seen.count > 1 {
+			r.Probe("c03.request_retried")
+		}
+		plainAll := hcBody("q"+id, ex.BodyLen, ex.Inc)
+		for ai, ab := range seen.attempts {
+			got := ab
+			if c.sc.ReqAdaptor != "" {
+				if d, err := hcDecode(ab, seen.hdr); err == nil {
+					got = d
+				}
+			}
+			if !bytes.Equal(got, plainAll) {
+				r.Violate("C03.req.body-on-retry/"+c.facts(ex), "%s: attempt %d of %d reached the backend with body %s, want %s\n%s", id, ai+1, seen.count, hcShort(got), hcShort(plainAll), desc)
+				break
+			}
+		}
+	} else if seen.count > 1 {
 		r.Violate("C03.req.duplicated", "%s: backend saw the request %d times\n%s", id, seen.count, desc)
 	}
 	if seen.method != ex.Method {
